@@ -2,7 +2,7 @@
     C01, C02, C06, C10, C11 (the statements are repeated there verbatim and closed by [exact]) *)
 From Coq Require Import NArith ZArith List Bool Lia String Ascii.
 From SasLexer Require Import Gen.TokenType Gen.ErrorKind Gen.Channel Model.Base Model.Helpers Model.Numeric Model.Core Model.Buffer
-     Model.Lexer3 Spec.RefLex Proofs.Generic Proofs.LexGeneric Proofs.Sorted Proofs.LexSorted Proofs.RefLexProofs Proofs.RefLexErrors Proofs.RefLexTiling Proofs.RefLexShape
+     Model.Lexer3 Spec.RefLex Proofs.Generic Proofs.LexGeneric Proofs.Sorted Proofs.LexSorted Proofs.RefLexProofs Proofs.RefLexErrors Proofs.RefLexTiling Proofs.RefLexShape Proofs.RefLexCase Proofs.Tables Proofs.CaseInv
      Proofs.OcBase Proofs.OcWhole Proofs.OcAll.
 Import ListNotations.
 Open Scope N_scope.
@@ -138,3 +138,50 @@ Proof.
   destruct (reflex src) as [[T E] lit]. destruct G as (G1 & G2 & G3 & G4 & G5 & _). auto.
 Qed.
 
+
+(** C16: [C16_macro_free_case_insensitive] *)
+Lemma case_variant_ups a b : case_variant a b -> ups a = ups b.
+Proof.
+  induction 1 as [|x y l l' Hxy _ IH]; [reflexivity|]. cbn [ups map]. f_equal; [|exact IH].
+  destruct Hxy as [->|(_ & _ & E)]; [reflexivity|exact E].
+Qed.
+
+Lemma body_of_ups src : body_of (ups src) = ups (body_of src).
+Proof.
+  unfold body_of, split_bom. destruct src as [|c r]; [reflexivity|]. cbn [ups map].
+  change BOM with 65279. rewrite (up_eqb 65279 c eq_refl eq_refl). destruct (c =? 65279); reflexivity.
+Qed.
+
+Lemma mf_C16_macro_free_case_insensitive : forall (msep : bool) (a b : list char),
+  case_variant a b -> macro_free (body_of a) = true ->
+  let ra := lex (mkCfg false msep) a in
+  let rb := lex (mkCfg false msep) b in
+  map tv0 (b_toks (lr_buffer ra)) = map tv0 (b_toks (lr_buffer rb)) /\
+  map ev0 (lr_errors ra) = map ev0 (lr_errors rb).
+Proof.
+  intros msep a b Hv Ha. cbv zeta.
+  pose proof (case_variant_ups a b Hv) as Hu.
+  assert (Hb : macro_free (body_of b) = true).
+  { rewrite <- (macro_free_ups (body_of b)), <- body_of_ups, <- Hu, body_of_ups, macro_free_ups. exact Ha. }
+  pose proof (lex_is_reflex_macro_free msep a Ha) as Ga. pose proof (lex_is_reflex_macro_free msep b Hb) as Gb. cbv zeta in Ga, Gb.
+  pose proof (reflex_case_insensitive a b Hu) as Hr.
+  destruct (reflex a) as [[T1 E1] l1]. destruct (reflex b) as [[T2 E2] l2]. destruct Hr as [-> ->].
+  destruct Ga as (_ & _ & A3 & A4 & _). destruct Gb as (_ & _ & B3 & B4 & _). split; congruence.
+Qed.
+
+Lemma case_eq_lc c : case_eq c (lc c).
+Proof.
+  unfold lc. destruct (is_ascii_upper c) eqn:E; [|left; reflexivity]. right.
+  unfold is_ascii_upper in E. apply andb_true_iff in E. destruct E as [E1 E2]. apply N.leb_le in E1. apply N.leb_le in E2.
+  assert (L1 : is_ascii_lower (c + 32) = true).
+  { unfold is_ascii_lower. apply andb_true_iff. split; apply N.leb_le; lia. }
+  assert (L0 : is_ascii_lower c = false).
+  { unfold is_ascii_lower. apply andb_false_iff. left. apply N.leb_gt. lia. }
+  split; [|split].
+  - unfold is_letter, is_ascii_upper. rewrite (proj2 (N.leb_le 65 c) E1), (proj2 (N.leb_le c 90) E2). apply orb_true_r.
+  - unfold is_letter. rewrite L1. reflexivity.
+  - unfold to_ascii_uppercase. rewrite L1, L0. lia.
+Qed.
+
+Lemma case_variant_lc a : case_variant a (map lc a).
+Proof. induction a as [|c r IH]; constructor; [apply case_eq_lc|exact IH]. Qed.
